@@ -72,6 +72,11 @@ class Gen(object):
             c = r.random()
             st["ResultPath"] = None if c < 0.15 else ("$" if c < 0.3 else "$." + r.choice(["r", "a", "out"]) if c < 0.7
                                                       else "$['r q']" if c < 0.8 else "$.r.deep")
+            ip = st.get("InputPath")
+            if isinstance(ip, str) and ip not in ("$", "$.nope") and r.random() < 0.5:
+                # the result lands inside the very sub-tree InputPath selected (the result may be that sub-tree itself: aliasing hazard)
+                st["ResultPath"] = ip + "." + r.choice(["prev", "a", "r"])
+                self.features.add("ResultPath-inside-InputPath")
             self.features.add("ResultPath")
         if r.random() < 0.2:
             st["OutputPath"] = None if r.random() < 0.2 else "$"
@@ -188,7 +193,14 @@ class Gen(object):
                     doc = {}
                 pre = cur
                 cur = self.name()
-                states[pre] = {"Type": "Pass", "Result": arr, "ResultPath": "$.items", "Next": cur}
+                if r.random() < 0.3:
+                    # the Map works on a sub-document (InputPath) while its result goes back into the RAW input
+                    states[pre] = {"Type": "Pass", "Result": {"items": arr, "tag": "job"}, "ResultPath": "$.job", "Next": cur}
+                    st["InputPath"] = "$.job"
+                    st["ResultPath"] = r.choice(["$.mapped", "$.job.results", "$"])
+                    self.features.add("Map-InputPath")
+                else:
+                    states[pre] = {"Type": "Pass", "Result": arr, "ResultPath": "$.items", "Next": cur}
                 doc = dict(doc, items=arr) if isinstance(doc, dict) else doc
                 if r.random() < 0.4:
                     st["ItemSelector"] = {"v.$": "$$.Map.Item.Value", "i.$": "$$.Map.Item.Index"}
@@ -197,7 +209,7 @@ class Gen(object):
                     st["MaxConcurrency"] = r.randint(0, 3)
                     self.features.add("MaxConcurrency")
                 st["ItemProcessor"] = self.machine(arr[0] if arr else {}, depth - 1)
-                if r.random() < 0.5:
+                if r.random() < 0.5 and "ResultPath" not in st:
                     st["ResultPath"] = "$.mapped"
                 self.retry_catch(st, nxt, last, simple=True)
             if kind in ("Succeed", "Fail"):
